@@ -212,6 +212,28 @@ pub fn c14_rel_double_dot() {
     reach!("c14_rel_double_dot.end");
     std::mem::forget(got); std::mem::forget(db);
 }
+/// @harness id=c14_rel_triple_dot props=C14 tier=quick unwind=24 mem=8 cap=900
+/// `from ...m import *` in /a/b/conftest.py. Symbolic: existence of /a/b/m.py, /a/m.py (decoys) and /m.py,
+/// /m/__init__.py. Three dots = the grandparent package: /m.py or /m/__init__.py, else none.
+#[cfg_attr(kani, kani::proof)]
+#[cfg_attr(kani, kani::stub(std::path::Path::exists, crate::h_impk::fs_exists))]
+#[cfg_attr(kani, kani::stub(std::path::Path::is_dir, crate::h_impk::fs_is_dir))]
+#[cfg_attr(kani, kani::stub(alloc::fmt::format, crate::h_impk::fmt_last_part_py))]
+#[cfg_attr(kani, kani::stub(std::path::Path::canonicalize, crate::stubs::canonicalize_err))]
+#[cfg_attr(kani, kani::stub(core::slice::memchr::memchr, crate::stubs::memchr_bytewise))]
+pub fn c14_rel_triple_dot() {
+    let e_own: bool = any(); let e_mid: bool = any(); let e_py: bool = any(); let e_pkg: bool = any();
+    assume(!(e_py && e_pkg));
+    fs_install(&[f(AB_M_PY, e_own), f(A_M_PY, e_mid), f(R_M_PY, e_py), f(R_M_INIT, e_pkg)]);
+    let db = FixtureDatabase::new();
+    let got = db.resolve_module_to_file("...m", Path::new(AB_CONF));
+    let w = which(&got, &[R_M_PY, R_M_INIT, AB_M_PY, A_M_PY]);
+    note!("exists: a/b/m.py={} a/m.py={} m.py={} m/__init__.py={} -> {:?}", e_own, e_mid, e_py, e_pkg, got);
+    check!("c14.rel3.exact", w == if e_py { 0 } else if e_pkg { 1 } else { 255 });
+    reach!("c14_rel_triple_dot.end");
+    std::mem::forget(got); std::mem::forget(db);
+}
+
 /// @harness id=c14_rel_bare_dots props=C14 tier=quick unwind=24 mem=8 cap=900
 /// `from . import *` in /a/conftest.py and `from .. import *` in /a/b/conftest.py. Symbolic: existence of
 /// /a/__init__.py, /__init__.py, /a/b/__init__.py. The first denotes /a/__init__.py, the second ALSO /a/__init__.py
@@ -258,11 +280,13 @@ pub fn c14_rel_dotted_package() {
     reach!("c14_rel_dotted_package.end");
     std::mem::forget(got); std::mem::forget(db);
 }
-/// @harness id=c14_abs_dotted props=C14 tier=quick unwind=24 mem=8 cap=900
+/// @harness id=c14_abs_dotted props=C14,C12 tier=quick unwind=24 mem=8 cap=900
 /// Absolute dotted name `p.m` (`pytest_plugins = "p.m"` / `from p.m import *`) from /a/conftest.py. Symbolic: /a/p is a
 /// directory, /a/p/m.py exists, /p is a directory, /p/m.py exists (a file implies its directory). The nearest ancestor
 /// that HAS the module wins; a same-named directory WITHOUT the submodule nearer to the importing file (a namespace
 /// portion, e.g. a data directory) does not hide the real package further up; none when no level has it.
+/// (Also serves C12: the upward search `loop { .. current_dir.parent() .. }` terminates at the file-system root — the
+/// unwinding assertion on that loop is part of the verdict.)
 #[cfg_attr(kani, kani::proof)]
 #[cfg_attr(kani, kani::stub(std::path::Path::exists, crate::h_impk::fs_exists))]
 #[cfg_attr(kani, kani::stub(std::path::Path::is_dir, crate::h_impk::fs_is_dir))]
